@@ -202,9 +202,27 @@ Fixpoint remove_at (i : nat) (l : list node) : list node :=
   | y :: l', S i' => y :: remove_at i' l'
   end.
 
-(* map a res-valued function over a list *)
-Fixpoint mapM {A B} (f : A -> res B) (l : list A) : res (list B) :=
+(* map a res-valued function over a list (f is a section variable so that nested recursive
+   calls through mapM are accepted by the guard checker, as with List.map) *)
+Section MapM.
+Context {A B C : Type}.
+Variable f : A -> res B.
+Fixpoint mapM (l : list A) : res (list B) :=
   match l with
   | [] => Ok []
-  | x :: l' => y <- f x ;; r <- mapM f l' ;; Ok (y :: r)
+  | x :: l' => y <- f x ;; r <- mapM l' ;; Ok (y :: r)
   end.
+
+Variable g : A -> C -> res B.
+Variable dflt : C.
+(* second list padded with [dflt] *)
+Fixpoint mapM2 (l : list A) (m : list C) : res (list B) :=
+  match l with
+  | [] => Ok []
+  | x :: l' =>
+      y <- g x (match m with c :: _ => c | [] => dflt end) ;;
+      r <- mapM2 l' (tl m) ;; Ok (y :: r)
+  end.
+End MapM.
+Arguments mapM {A B} f l.
+Arguments mapM2 {A B C} g dflt l m.
